@@ -79,12 +79,12 @@ def runCase (hdr : List String) (body : List (List String)) : List String := Id.
     | none => Kind.dtor
   let kinds := (body.filterMap parseKind).map (fun k => if k == Kind.dtor then dk else k)
   -- how the controller ends the promise's life when no `d` thread does:
-  --   default: destroys it; `assign-end`: move-assigns an empty promise over it (drops the future, no default);
+  --   default: destroys it; `assign-end`: move-assigns an empty promise of its class over it (no-value; the default for a pwd);
   --   `assign-from <va>`: move-assigns it into an empty promise_with_default with default va and destroys that one
   let assignEnd := body.any (fun w => w.head? == some "assign-end")
   let assignFrom : Option Nat := (body.find? (fun w => w.head? == some "assign-from")).bind (fun w => (w[1]?.getD "").toNat?)
   let endKind : Kind :=
-    if assignEnd then Kind.dtor else
+    if assignEnd then assignOverKind pwd else
     match pwd, assignFrom with
     | some v, some va => Kind.ddef (assignedDefault va v)
     | some v, none => Kind.ddef v
